@@ -402,7 +402,7 @@ pub fn run(run: &Run) {
          (commas, quotes, non-ASCII, empty); malformed rows by construction: 0/1/2 fields only, 16 bad property spellings (typo, lower case, dangling or \
          leading 'or', unknown member, 'and', a valid single/pair with junk or a third member before or after it), 16 bad code point spellings (empty, non-hex, \
          > 10FFFF, dangling/doubled/tripled '-', blank inside, '..', 'U+', '0x', junk prefix/suffix); whole files \
-         (header + 0..12 rows, LF or CRLF, with/without final newline) written under /verif/work and read through CsvLineParser::from_path; every \
+         (header + 0..12 rows, and big files of 100..600 rows with descriptions up to 300 characters; LF or CRLF, with/without final newline) written under /verif/work and read through CsvLineParser::from_path; every \
          property-name string of the 7 names and near-misses; the real IANA file against my own CSV reader. Deliberately not asserted either way: \
          lower-case or sign-prefixed hex, over-long zero padding, reversed ranges. Oracle: round trip against the generator's structured row (same code \
          points, property/pair, description up to the terminator; file order; header skipped; error with line number k for a malformed row on file line k; \
@@ -481,6 +481,20 @@ pub fn run(run: &Run) {
             let dir = base2.join(format!("t{}", l.tid));
             std::fs::create_dir_all(&dir).expect("mkdir work");
             check_file(rows, *crlf, *fin, header, &dir, l)
+        },
+    );
+    // big files: hundreds of rows with long descriptions (lines straddle the 8 KiB / 64 KiB read-buffer boundaries)
+    let base3 = base.clone();
+    let long_desc = || vec(prop_oneof![8 => (0x20u8..0x7f).prop_map(|b| b as char), 1 => Just(','), 1 => gens::gchar().prop_filter("no line terminators", |c| *c != '\n' && *c != '\r')], 0..=300).prop_map(gens::s_of);
+    run.prop(
+        "big_files",
+        run.pick(400, 8_000),
+        move || (vec((row_strategy(10), long_desc()), 100..=600), any::<bool>(), any::<bool>()),
+        move |(rows, crlf, fin), l| {
+            let rows: Vec<Row> = rows.iter().map(|(r, d)| { let mut r = r.clone(); if r.desc.len() % 3 == 0 { r.desc = d.clone(); } r }).collect();
+            let dir = base3.join(format!("b{}", l.tid));
+            std::fs::create_dir_all(&dir).expect("mkdir work");
+            check_file(&rows, *crlf, *fin, "Codepoint,Property,Description", &dir, l)
         },
     );
     let _ = std::fs::remove_dir_all(&base);
